@@ -79,6 +79,10 @@ def service_cases(tier, inst):
     # zero-crossing family: the same lattice translated so that it contains 0.0 and a negative temperature
     for ms in P.stream_multisets(A.zero_inst(inst), K, 2, cps=(1, 2), dts=(0, 1)):
         yield {"streams": ms, "zones": ["A"] * len(ms)}
+    # small, non-round duties (a site entered in MW): 4-dp rounding of stored tables must not reach the targets
+    small = (inst[0], inst[1], 0.0123457 * inst[2], inst[3])
+    for ms in P.stream_multisets(small, 3, 2, cps=(1, 2), dts=(0, 1)):
+        yield {"streams": ms, "zones": ["A"] * len(ms) if len(ms) == 1 else ["A", "B"]}
     # tolerance-edge family: two streams whose bounds differ by tiny amounts
     T = A.lattice(inst, 4)
     cpu = inst[2]
